@@ -1186,7 +1186,11 @@ func runC18(c *Ctx) {
 	add("CORPUS", corpus, "", profCorpus, 2)
 	add("SEQ k<=2", seq2bare, "", profA, 3)
 	add("ANCH<=4 (fragment)", anchFamily(4, true), "", profA, 3)
-	add("CORE-S<=4", coreS4, "", profA, 3)
+	if thorough {
+		add("CORE-S<=4", coreS4, "", profA, 3)
+	} else {
+		add("CORE-S<=4", coreS4, "", profA, 2)
+	}
 	c.c18RunSpellJobs(sj)
 	if !thorough {
 		return
